@@ -6,6 +6,17 @@ mod tsc;
 
 pub(crate) use tsc::*;
 
+/// The operating system's clock (or, with `verif_hooks`, a virtual source
+/// installed in its place).
+#[inline(always)]
+fn os_now(_is_end: bool) -> Instant {
+    #[cfg(feature = "verif_hooks")]
+    if let Some(instant) = crate::verif::virtual_os_now(_is_end) {
+        return instant;
+    }
+    Instant::now()
+}
+
 /// A measurement timestamp.
 #[derive(Clone, Copy, PartialEq, Eq, PartialOrd, Ord)]
 pub(crate) enum Timestamp {
@@ -21,7 +32,7 @@ impl Timestamp {
     pub fn start(timer_kind: TimerKind) -> Self {
         fence::full_fence();
         let value = match timer_kind {
-            TimerKind::Os => Self::Os(Instant::now()),
+            TimerKind::Os => Self::Os(os_now(false)),
             TimerKind::Tsc => Self::Tsc(TscTimestamp::start()),
         };
         fence::compiler_fence();
@@ -62,7 +73,7 @@ impl UntaggedTimestamp {
     pub fn start(timer_kind: TimerKind) -> Self {
         fence::full_fence();
         let value = match timer_kind {
-            TimerKind::Os => Self { os: Instant::now() },
+            TimerKind::Os => Self { os: os_now(false) },
             TimerKind::Tsc => Self { tsc: TscTimestamp::start() },
         };
         fence::compiler_fence();
@@ -73,7 +84,7 @@ impl UntaggedTimestamp {
     pub fn end(timer_kind: TimerKind) -> Self {
         fence::compiler_fence();
         let value = match timer_kind {
-            TimerKind::Os => Self { os: Instant::now() },
+            TimerKind::Os => Self { os: os_now(true) },
             TimerKind::Tsc => Self { tsc: TscTimestamp::end() },
         };
         fence::full_fence();
